@@ -267,21 +267,32 @@ def mpc_pow_mpf(z, p, prec, rnd=round_fast):
     wp = prec + 10 + _pow_guard_bits(z, pexp+pbc)
     return mpc_exp(mpc_mul_mpf(mpc_log(z, wp), p, wp), prec, rnd)
 
+def mpf_pow_int_exact(s, n, prec, rnd=round_fast):
+    """Integer power of a real number, correctly rounded whenever the
+    exact power has at most about 10^4 bits (mpf_pow_int rounds its
+    intermediate products beyond 1000 bits)."""
+    sign, man, exp, bc = s
+    if man and n > 0 and bc*n < 20000:
+        if sign:
+            man = -man
+        return from_man_exp(man**n, int(exp*n), prec, rnd)
+    return mpf_pow_int(s, n, prec, rnd)
+
 def mpc_pow_int(z, n, prec, rnd=round_fast):
     a, b = z
     if b == fzero:
-        return mpf_pow_int(a, n, prec, rnd), fzero
+        return mpf_pow_int_exact(a, n, prec, rnd), fzero
     if a == fzero:
-        v = mpf_pow_int(b, n, prec, rnd)
-        n %= 4
-        if n == 0:
-            return v, fzero
-        elif n == 1:
+        # (bi)^n = i^n b^n; where i^n = -1 or -i the power is rounded in
+        # the opposite direction and then negated
+        k = n % 4
+        if k >= 2:
+            v = mpf_neg(mpf_pow_int_exact(b, n, prec, negative_rnd[rnd]))
+        else:
+            v = mpf_pow_int_exact(b, n, prec, rnd)
+        if k % 2:
             return fzero, v
-        elif n == 2:
-            return mpf_neg(v), fzero
-        elif n == 3:
-            return fzero, mpf_neg(v)
+        return v, fzero
     if n == 0: return mpc_one
     if n == 1: return mpc_pos(z, prec, rnd)
     if n == 2: return mpc_square(z, prec, rnd)
